@@ -27,6 +27,9 @@ class C07:
         cov["samples"] = [{"component": "proxy", "events": c.meta["events"], "first_event": pc.event_text(c, 0)[:5]} for c in cases[len(corpus):len(corpus) + 2]]
         cov["corpus_cases"] = len(corpus)
         cov["exhaustive"] = False
+        # connections the proxy opens to TCP backends are read with the ITEM's received-support, too: requests the backends
+        # send on them (subscriptions of their own) must be stamped like any other
+        pc.explore_tb(ctx, "C07", ["proxytb-C07"], cov, failures)
         return {"coverage": cov, "failures": failures}
 
     def opts(self, rng, i):
